@@ -31,7 +31,7 @@ def task_verlet(ctx):
     """O2: one_step is exactly  v+=a dt/2; x+=v dt; a=F(x_new)/m; v+=a dt/2  (the new force, the half-kicked velocity)."""
     ctx.under_contract(MD + ":Molecular_Dynamics_Basic.one_step", stubs=["esdriver"])
     ctx.under_contract(MD + ":Molecular_Dynamics_Basic._do_integrator_step")
-    for nat in (1, 2):
+    for nat in ((1, 2) if ctx.tier == "quick" else (1, 2, 3)):
         def thunk():
             md = _make_basic()
             md.esdriver.behaviour = _driver_behaviour
@@ -62,7 +62,7 @@ def task_verlet(ctx):
 def task_reversibility(ctx):
     """O1: step, negate v, step, negate v  =  identity on (x, v, acc), whenever acc is the acceleration of x."""
     ctx.under_contract(MD + ":Molecular_Dynamics_Basic.one_step", stubs=["esdriver"])
-    for nat in (1, 2):
+    for nat in ((1, 2) if ctx.tier == "quick" else (1, 2, 3)):
         def thunk():
             md = _make_basic()
             md.esdriver.behaviour = _driver_behaviour
